@@ -19,6 +19,7 @@ import (
 	"encoding/binary"
 	"errors"
 	"fmt"
+	"io"
 	"math/rand"
 	"net"
 	"reflect"
@@ -288,6 +289,10 @@ type c13Conn struct {
 	cbs       []gnet.AsyncCallback
 	nAsync    int
 	closed    bool
+	// multi-connection histories: OnClose has run for this connection (the peer went away); gnet then completes
+	// an AsyncWrite with net.ErrClosed and puts nothing on the wire
+	gone bool
+	late int
 }
 
 func (c *c13Conn) Next(n int) ([]byte, error) {
@@ -348,6 +353,15 @@ func (c *c13Conn) runCallbacks() {
 	c.asyncBufs, c.cbs = nil, nil
 	c.mu.Unlock()
 	if len(bufs) == 0 {
+		return
+	}
+	if c.gone {
+		c.late += len(bufs)
+		for _, cb := range cbs {
+			if cb != nil {
+				cb(c, net.ErrClosed)
+			}
+		}
 		return
 	}
 	var scrub []pool.Buffer
@@ -536,6 +550,9 @@ func c13Stalled() { atomic.AddInt32(&c13Stalls, 1) }
 
 func c13GnetRun(cs string) string {
 	m := kv(cs)
+	if m["ord"] == "m" {
+		return c13GnetMultiRun(cs)
+	}
 	max := atoi(m["max"])
 	det := m["ord"] == "d"
 	stream := c13Stream(c13ParseFrames(m["fr"]))
@@ -775,6 +792,7 @@ func c13RandCuts(r *rand.Rand, fs []c13frame, flavour int) []int {
 }
 
 func c13GnetGen(r *rand.Rand, thorough bool, emit func(c, cat string)) {
+	c13GnetMultiGen(r, thorough, emit)
 	// (1) exhaustive: a 3-frame stream, every cut-set of at most 2 (thorough: 3) cuts
 	fs3 := []c13frame{{17, true}, {19, true}, {17, true}}
 	total := c13Total(fs3)
@@ -906,6 +924,294 @@ func c13GnetGen(r *rand.Rand, thorough bool, emit func(c, cat string)) {
 		for _, mx := range []int{1, 3, 100} {
 			emit(c13Case(mx, true, fs, []string{"s" + strconv.Itoa(c13Total(fs))}), "overlimit-oneseg")
 		}
+	}
+}
+
+// ---------------------------------------------------------------- several connections on one handler
+//
+// case : max=<n> ord=m cf=<conn of frame 1>,... fr=<len>,... ops=<o<k>|s<k>:<n>|c<k>|r<k>:<j>>,...
+//        one gnetServer handler, connections 1..K each with its own fake gnet.Conn; frame i (DNS id i) belongs to
+//        the stream of connection cf[i]. o<k>: OnOpen; s<k>:<n>: n octets of k's stream arrive, OnTraffic;
+//        c<k>: k's peer goes away, OnClose (queries of k still held at the upstream keep running);
+//        r<k>:<j>: the j-th held query of k (by id) is answered by the upstream, its AsyncWrite is awaited and
+//        completed on the event loop (with net.ErrClosed and nothing on the wire if k is gone).
+// out  : c<k>=<writes>/<closed by the server>/<late replies>/<reassembly state> per connection, up=<ids forwarded>
+
+func c13GnetMultiRun(cs string) string {
+	m := kv(cs)
+	max := atoi(m["max"])
+	fs := c13ParseFrames(m["fr"])
+	var cf []int
+	K := 0
+	for _, t := range strings.Split(m["cf"], ",") {
+		k := atoi(t)
+		cf = append(cf, k)
+		if k > K {
+			K = k
+		}
+	}
+	if len(cf) != len(fs) || K == 0 {
+		return "bad-case"
+	}
+	streams := make([][]byte, K+1)
+	for i, f := range fs {
+		body := c13Query(i+1, f.l)
+		if !f.valid {
+			body = c13Garbage(i+1, f.l)
+		}
+		streams[cf[i]] = append(streams[cf[i]], byte(f.l>>8), byte(f.l))
+		streams[cf[i]] = append(streams[cf[i]], body...)
+	}
+	up := c13.up
+	up.reset(true, 0)
+	h := c13.vr.NewGnetHandler(int32(max), time.Hour)
+	conns := make([]*c13Conn, K+1)
+	srvClosed := make([]bool, K+1)
+	stall := false
+	totalConc := func() int {
+		n := 0
+		for _, c := range conns {
+			if c != nil {
+				_, _, _, _, conc := c.state()
+				n += conc
+			}
+		}
+		return n
+	}
+	heldOf := func(k int) []int {
+		var ids []int
+		for _, id := range up.heldIDs() {
+			if id >= 1 && id <= len(cf) && cf[id-1] == k {
+				ids = append(ids, id)
+			}
+		}
+		return ids
+	}
+	relOne := func(k, id int) {
+		c := conns[k]
+		before := c.asyncCount()
+		up.release(id)
+		if stall {
+			c.waitAsync(before+1, time.Millisecond)
+		} else if !c.waitAsync(before+1, c13WaitD()) {
+			stall = true
+		}
+		c.runCallbacks()
+	}
+	var ops []string
+	if m["ops"] != "-" && m["ops"] != "" {
+		ops = strings.Split(m["ops"], ",")
+	}
+	for _, op := range ops {
+		arg := op[1:]
+		k, n := 0, 0
+		if i := strings.IndexByte(arg, ':'); i >= 0 {
+			k, n = atoi(arg[:i]), atoi(arg[i+1:])
+		} else {
+			k = atoi(arg)
+		}
+		if k < 1 || k > K {
+			return "bad-case"
+		}
+		switch op[0] {
+		case 'o':
+			if conns[k] != nil {
+				continue
+			}
+			c := &c13Conn{}
+			conns[k] = c
+			if _, a := h.OnOpen(c); a != gnet.None {
+				return "open-refused"
+			}
+		case 's':
+			c := conns[k]
+			seg := streams[k][:n]
+			streams[k] = streams[k][n:]
+			if c == nil || c.gone || srvClosed[k] {
+				continue
+			}
+			if a := c.feed(h, seg); a == gnet.Close {
+				srvClosed[k] = true
+			}
+			// every admitted query of every connection must reach the upstream before the next step
+			if !stall && !up.waitHeld(totalConc(), c13WaitD()) {
+				stall = true
+			}
+		case 'c':
+			c := conns[k]
+			if c == nil || c.gone {
+				continue
+			}
+			c.gone = true
+			h.OnClose(c, io.EOF)
+		case 'r':
+			if conns[k] == nil {
+				continue
+			}
+			if ids := heldOf(k); n < len(ids) {
+				relOne(k, ids[n])
+			}
+		}
+	}
+	// the handlers still running complete, connection by connection, oldest first
+	for k := 1; k <= K; k++ {
+		if conns[k] == nil {
+			continue
+		}
+		for _, id := range heldOf(k) {
+			relOne(k, id)
+		}
+	}
+	var parts []string
+	for k := 1; k <= K; k++ {
+		c := conns[k]
+		if c == nil {
+			parts = append(parts, fmt.Sprintf("c%d=-/0/0/n:0:0:0:0", k))
+			continue
+		}
+		c.runCallbacks()
+		mode, bl, rn, il, conc := c.state()
+		st := fmt.Sprintf("%s:%d:%d:%d:%d", mode, bl, rn, il, conc)
+		if srvClosed[k] {
+			st = "closed"
+		}
+		c.mu.Lock()
+		ws := make([][2]int, 0, len(c.writes))
+		for _, b := range c.writes {
+			id, kd := c13Kind(b)
+			ws = append(ws, [2]int{id, kd})
+		}
+		late := c.late
+		c.mu.Unlock()
+		parts = append(parts, fmt.Sprintf("c%d=%s/%s/%d/%s", k, c13FmtW(ws, false), b2s(srvClosed[k]), late, st))
+		if !c.gone {
+			h.OnClose(c, nil)
+		}
+	}
+	res := strings.Join(parts, " ") + " up=" + c13FmtInts(up.arrivedSorted())
+	if stall {
+		c13Stalled()
+		res += " stall=1"
+	}
+	return res
+}
+
+func c13MultiCase(max int, cf []int, fs []c13frame, ops []string) string {
+	cs := make([]string, len(cf))
+	for i, k := range cf {
+		cs[i] = strconv.Itoa(k)
+	}
+	return fmt.Sprintf("max=%d ord=m cf=%s fr=%s ops=%s", max, strings.Join(cs, ","), c13FrStr(fs), strings.Join(ops, ","))
+}
+
+func c13GnetMultiGen(r *rand.Rand, thorough bool, emit func(c, cat string)) {
+	q := func(n int) []c13frame {
+		fs := make([]c13frame, n)
+		for i := range fs {
+			fs[i] = c13frame{17, true}
+		}
+		return fs
+	}
+	// the peer of connection 1 goes away with a query in flight, connection 2 is accepted and fills its own limit,
+	// connection 1's late reply comes back, connection 2 sends one more query: it must be REFUSED
+	for _, mx := range []int{1, 2, 3} {
+		var cf []int
+		var ops []string
+		ops = append(ops, "o1")
+		for i := 0; i < mx; i++ {
+			cf = append(cf, 1)
+			ops = append(ops, "s1:19")
+		}
+		ops = append(ops, "c1", "o2")
+		for i := 0; i < mx; i++ {
+			cf = append(cf, 2)
+			ops = append(ops, "s2:19")
+		}
+		for i := 0; i < mx; i++ {
+			ops = append(ops, "r1:0")
+		}
+		cf = append(cf, 2)
+		ops = append(ops, "s2:19")
+		emit(c13MultiCase(mx, cf, q(len(cf)), ops), "multi-late-reply-after-reopen")
+		// the mirror image: the late reply arrives BEFORE the successor has anything in flight (must not be
+		// refused too early afterwards, must not go negative)
+		ops2 := []string{"o1", "s1:19", "c1", "o2", "r1:0"}
+		cf2 := []int{1}
+		for i := 0; i <= mx; i++ {
+			cf2 = append(cf2, 2)
+			ops2 = append(ops2, "s2:19")
+		}
+		emit(c13MultiCase(mx, cf2, q(len(cf2)), ops2), "multi-late-reply-before-traffic")
+	}
+	// two live connections: each one's limit is its own
+	emit(c13MultiCase(1, []int{1, 2, 1, 2}, q(4), []string{"o1", "o2", "s1:19", "s2:19", "s1:19", "s2:19", "r1:0", "r2:0"}), "multi-independent")
+	n := 500
+	if thorough {
+		n = 6000
+	}
+	for i := 0; i < n; i++ {
+		K := 2 + r.Intn(2)
+		mx := 1 + r.Intn(3)
+		nf := 3 + r.Intn(8)
+		fs := make([]c13frame, nf)
+		cf := make([]int, nf)
+		remain := make([]int, K+1) // octets of each connection's stream not yet sent
+		for j := range fs {
+			l := 17
+			if r.Intn(4) == 0 {
+				l = 19 + r.Intn(20)
+			}
+			fs[j] = c13frame{l, true}
+			cf[j] = 1 + r.Intn(K)
+			remain[cf[j]] += 2 + l
+		}
+		// make sure every connection 1..K owns a frame (the model derives K from cf)
+		for k := 1; k <= K; k++ {
+			if remain[k] == 0 {
+				j := r.Intn(nf)
+				for remain[cf[j]] == 2+fs[j].l { // do not empty another connection
+					j = (j + 1) % nf
+				}
+				remain[cf[j]] -= 2 + fs[j].l
+				cf[j] = k
+				remain[k] += 2 + fs[j].l
+			}
+		}
+		state := make([]int, K+1) // 0 not opened, 1 open, 2 gone
+		var ops []string
+		cat := "multi-rand"
+		closes := 0
+		for step := 0; step < 60; step++ {
+			k := 1 + r.Intn(K)
+			switch x := r.Intn(10); {
+			case state[k] == 0:
+				ops = append(ops, "o"+strconv.Itoa(k))
+				state[k] = 1
+			case x < 5 && state[k] == 1 && remain[k] > 0:
+				n := 19
+				if r.Intn(3) == 0 {
+					n = 1 + r.Intn(25)
+				}
+				if n > remain[k] {
+					n = remain[k]
+				}
+				remain[k] -= n
+				ops = append(ops, fmt.Sprintf("s%d:%d", k, n))
+			case x < 7:
+				ops = append(ops, fmt.Sprintf("r%d:%d", k, r.Intn(2)))
+			case x == 7 && state[k] == 1 && closes < K-1:
+				ops = append(ops, "c"+strconv.Itoa(k))
+				state[k] = 2
+				closes++
+			}
+		}
+		if closes > 0 {
+			cat += "-closes"
+		}
+		if len(ops) == 0 {
+			continue
+		}
+		emit(c13MultiCase(mx, cf, fs, ops), cat)
 	}
 }
 
